@@ -80,7 +80,7 @@ Definition keepalive_marked (http11 : bool) (r : resp) : bool :=
    DisableKeepalive, the request, MaxRequestsPerConn reached, the handler set it, CloseOnShutdown during
    shutdown.  (The server may have further reasons of its own — a rejected expectation, a timed-out handler that
    still owns a streamed body — which conn_ok covers: whatever the reason, header and behaviour agree.)  (A response suppressed by HijackSetNoResponse is not a response.) *)
-Definition handler_state (E : env) (num : N) (q : req_sum) : hstate := req_hstate E num q true StatusOK.
+Definition handler_state (E : env) (num : N) (q : req_sum) : hstate := req_hstate E num q true StatusOK false.
 Definition close_reason (cfg : scfg) (E : env) (num : N) (q : req_sum) : bool :=
   disable_keepalive cfg || q_close q || max_reached cfg num || rh_close (h_rh (handler_state E num q))
   || (close_on_shutdown cfg && stop_at_close E num).
